@@ -298,6 +298,10 @@ class Escape:
         for n in walk_no_nested(fn):
             if id(n) in skip or n is fn:
                 continue
+            if isinstance(n, ast.For) and (attr_chain(n.iter) or '').startswith('self.') and self.cls_of(qn):
+                t_ = self.attr_type(self.cls_of(qn), (attr_chain(n.iter) or '')[5:])    # iterating a generator attribute resumes that function
+                if t_ and t_.startswith('gen:') and t_[4:] in self.funcs:
+                    calls.append((n.iter, [t_[4:]]))
             if isinstance(n, ast.Call):
                 tg = self.resolve_call(qn, n)
                 if tg:
